@@ -865,6 +865,19 @@ func rC11DispatchOrder(w *World, r *Report) {
 	})
 	ok2 := !seenH[ig.idx[gateInstr]]
 	ru.Check(ok2, "order/help-before-gate", w.IPos(helpIf), "help is tested before the required gate", "the required gate can run before help is tested: `--help` would be answered with a missing-option error")
+	// every way out of Dispatch other than the answer to a help request passes the gate (a command without a
+	// function of its own is no exception: a missing required option is reported, not answered with landing help)
+	hk := helpEdge(helpIf)
+	noGate := ig.reachFromE([]int{0}, func(in ssa.Instruction) bool { return in == gateInstr }, func(term ssa.Instruction, k int) bool {
+		return !(term == ssa.Instruction(helpIf) && k == hk)
+	})
+	badRet := ""
+	for i, in := range ig.instrs {
+		if _, isRet := in.(*ssa.Return); isRet && noGate[i] {
+			badRet = w.IPos(in)
+		}
+	}
+	ru.Check(badRet == "", "order/gate-before-every-exit", w.IPos(gateInstr), "every exit except the help answer passes the required gate", "Dispatch can return (at "+badRet+") without having checked the required options although help was not requested: a missing required option goes unreported for that kind of command")
 }
 
 // helpTest finds the If whose condition is gopt.Called(finalNode.HelpCommandName).
